@@ -36,8 +36,9 @@ Inductive act := ANone | AClose | AShut.
 Definition act_shut (a : act) : bool := match a with AShut => true | _ => false end.
 
 (* what the handler does in OnOpen / OnTraffic of one connection: the returned action,
-   whether a Write/Writev inside the callback failed (conn.write -> deferred
-   el.close whose result is dropped), and what OnClose returns if the connection is
+   whether a Write/Writev inside the callback failed (conn.write -> deferred el.close,
+   whose result cannot be returned to the loop: a Shutdown asked for by OnClose is
+   passed to engine.shutdown instead), and what OnClose returns if the connection is
    closed as a consequence *)
 Record hres := mkH { h_act : act; h_wfail : bool; h_cact : act }.
 
@@ -168,7 +169,6 @@ Record estate := mkE {
   e_users : list upc;
   e_workers : list worker;
   e_next : Z;            (* next connection id *)
-  e_dropped : bool;      (* ghost: a Shutdown returned by OnClose was discarded *)
   e_hist : list evt;     (* newest first *)
 }.
 
@@ -177,47 +177,44 @@ Record estate := mkE {
 
 Definition set_cancel (s : estate) (b : bool) : estate :=
   mkE (e_cfg s) (e_alloc s) b (e_insd s) (e_started s) (e_inall s) (e_loops s) (e_ing s) (e_r s) (e_t s)
-      (e_users s) (e_workers s) (e_next s) (e_dropped s) (e_hist s).
+      (e_users s) (e_workers s) (e_next s) (e_hist s).
 Definition set_insd (s : estate) (b : bool) : estate :=
   mkE (e_cfg s) (e_alloc s) (e_cancel s) b (e_started s) (e_inall s) (e_loops s) (e_ing s) (e_r s) (e_t s)
-      (e_users s) (e_workers s) (e_next s) (e_dropped s) (e_hist s).
+      (e_users s) (e_workers s) (e_next s) (e_hist s).
 Definition set_inall (s : estate) (b : bool) : estate :=
   mkE (e_cfg s) (e_alloc s) (e_cancel s) (e_insd s) (e_started s) b (e_loops s) (e_ing s) (e_r s) (e_t s)
-      (e_users s) (e_workers s) (e_next s) (e_dropped s) (e_hist s).
+      (e_users s) (e_workers s) (e_next s) (e_hist s).
 Definition set_loops (s : estate) (x : list loop) : estate :=
   mkE (e_cfg s) (e_alloc s) (e_cancel s) (e_insd s) (e_started s) (e_inall s) x (e_ing s) (e_r s) (e_t s)
-      (e_users s) (e_workers s) (e_next s) (e_dropped s) (e_hist s).
+      (e_users s) (e_workers s) (e_next s) (e_hist s).
 Definition set_ing (s : estate) (x : loop) : estate :=
   mkE (e_cfg s) (e_alloc s) (e_cancel s) (e_insd s) (e_started s) (e_inall s) (e_loops s) x (e_r s) (e_t s)
-      (e_users s) (e_workers s) (e_next s) (e_dropped s) (e_hist s).
+      (e_users s) (e_workers s) (e_next s) (e_hist s).
 Definition set_r (s : estate) (x : rpc) : estate :=
   mkE (e_cfg s) (e_alloc s) (e_cancel s) (e_insd s) (e_started s) (e_inall s) (e_loops s) (e_ing s) x (e_t s)
-      (e_users s) (e_workers s) (e_next s) (e_dropped s) (e_hist s).
+      (e_users s) (e_workers s) (e_next s) (e_hist s).
 Definition set_t (s : estate) (x : tpc) : estate :=
   mkE (e_cfg s) (e_alloc s) (e_cancel s) (e_insd s) (e_started s) (e_inall s) (e_loops s) (e_ing s) (e_r s) x
-      (e_users s) (e_workers s) (e_next s) (e_dropped s) (e_hist s).
+      (e_users s) (e_workers s) (e_next s) (e_hist s).
 Definition set_users (s : estate) (x : list upc) : estate :=
   mkE (e_cfg s) (e_alloc s) (e_cancel s) (e_insd s) (e_started s) (e_inall s) (e_loops s) (e_ing s) (e_r s) (e_t s)
-      x (e_workers s) (e_next s) (e_dropped s) (e_hist s).
+      x (e_workers s) (e_next s) (e_hist s).
 Definition set_workers (s : estate) (x : list worker) : estate :=
   mkE (e_cfg s) (e_alloc s) (e_cancel s) (e_insd s) (e_started s) (e_inall s) (e_loops s) (e_ing s) (e_r s) (e_t s)
-      (e_users s) x (e_next s) (e_dropped s) (e_hist s).
+      (e_users s) x (e_next s) (e_hist s).
 Definition set_next (s : estate) (x : Z) : estate :=
   mkE (e_cfg s) (e_alloc s) (e_cancel s) (e_insd s) (e_started s) (e_inall s) (e_loops s) (e_ing s) (e_r s) (e_t s)
-      (e_users s) (e_workers s) x (e_dropped s) (e_hist s).
-Definition set_dropped (s : estate) (x : bool) : estate :=
-  mkE (e_cfg s) (e_alloc s) (e_cancel s) (e_insd s) (e_started s) (e_inall s) (e_loops s) (e_ing s) (e_r s) (e_t s)
-      (e_users s) (e_workers s) (e_next s) x (e_hist s).
+      (e_users s) (e_workers s) x (e_hist s).
 Definition set_hist (s : estate) (x : list evt) : estate :=
   mkE (e_cfg s) (e_alloc s) (e_cancel s) (e_insd s) (e_started s) (e_inall s) (e_loops s) (e_ing s) (e_r s) (e_t s)
-      (e_users s) (e_workers s) (e_next s) (e_dropped s) x.
+      (e_users s) (e_workers s) (e_next s) x.
 (* OnBoot has been called: the handle exists; start: loops registered *)
 Definition set_alloc (s : estate) (b : bool) : estate :=
   mkE (e_cfg s) b (e_cancel s) (e_insd s) (e_started s) (e_inall s) (e_loops s) (e_ing s) (e_r s) (e_t s)
-      (e_users s) (e_workers s) (e_next s) (e_dropped s) (e_hist s).
+      (e_users s) (e_workers s) (e_next s) (e_hist s).
 Definition set_started (s : estate) (b : bool) : estate :=
   mkE (e_cfg s) (e_alloc s) (e_cancel s) (e_insd s) b (e_inall s) (e_loops s) (e_ing s) (e_r s) (e_t s)
-      (e_users s) (e_workers s) (e_next s) (e_dropped s) (e_hist s).
+      (e_users s) (e_workers s) (e_next s) (e_hist s).
 
 Definition l_set_pc (l : loop) (p : lpc) : loop := mkLoop p (l_conns l) (l_q l) (l_pclosed l).
 Definition l_set_conns (l : loop) (c : list Z) : loop := mkLoop (l_pc l) c (l_q l) (l_pclosed l).
@@ -344,7 +341,8 @@ Definition total_conns (s : estate) : Z :=
   fold_right (fun l a => zlen (l_conns l) + a) 0 (e_loops s).
 
 (* effect of a callback of connection cid returning h on the loop:
-   (closed inside / because of the callback, shutdown sentinel raised, Shutdown of OnClose dropped) *)
+   (closed inside / because of the callback, shutdown sentinel raised,
+    engine.shutdown called from the deferred close of conn.write) *)
 Definition after_cb (h : hres) : bool * bool * bool :=
   if h_wfail h then (true, act_shut (h_act h), act_shut (h_cact h))
   else match h_act h with
@@ -353,12 +351,12 @@ Definition after_cb (h : hres) : bool * bool * bool :=
        | AShut => (false, true, false)
        end.
 
-(* apply it: the loop, the events after the callback's own event, dropped flag *)
+(* apply it: the loop, the events after the callback's own event, turnOff called *)
 Definition apply_cb (t : tid) (l : loop) (cid : Z) (h : hres) : loop * list evt * bool :=
-  let '(closed, sentinel, dropped) := after_cb h in
+  let '(closed, sentinel, off) := after_cb h in
   let l1 := if closed then l_set_conns l (zremove cid (l_conns l)) else l in
   let l2 := if sentinel then l_set_pc l1 LClosing else l1 in
-  (l2, if closed then [(t, KClose cid)] else [], dropped).
+  (l2, if closed then [(t, KClose cid)] else [], off).
 
 (* signal connOpened of a registration *)
 Definition signal (s : estate) (o : owner) : estate :=
@@ -386,6 +384,8 @@ Definition loop_common (t : tid) (l : loop) (c : choice) : option (loop * list e
   | _, _ => None
   end.
 
+Definition cancel_if (b : bool) (s : estate) : estate := if b then set_cancel s true else s.
+
 Definition lstep (i : nat) (s : estate) (c : choice) : option (estate * list evt) :=
   match get_loop s i with
   | None => None
@@ -398,12 +398,12 @@ Definition lstep (i : nat) (s : estate) (c : choice) : option (estate * list evt
           let cid := e_next s in
           let l1 := l_set_conns l (l_conns l ++ [cid]) in
           let '(l2, evs, d) := apply_cb t l1 cid h in
-          Some (set_dropped (set_next (put l2 s) (cid + 1)) (e_dropped s || d), (t, KOpen cid) :: evs)
+          Some (cancel_if d (set_next (put l2 s) (cid + 1)), (t, KOpen cid) :: evs)
         else None
     | LPoll, CIo (IoTraffic cid h) =>
         if zmem cid (l_conns l) then
           let '(l2, evs, d) := apply_cb t l cid h in
-          Some (set_dropped (put l2 s) (e_dropped s || d), (t, KTraffic cid) :: evs)
+          Some (cancel_if d (put l2 s), (t, KTraffic cid) :: evs)
         else None
     | LPoll, CIo (IoPeerClose cid ca) =>
         if zmem cid (l_conns l) then
@@ -425,7 +425,7 @@ Definition lstep (i : nat) (s : estate) (c : choice) : option (estate * list evt
           | TReg cid o =>
               let l1 := l_set_conns l0 (l_conns l0 ++ [cid]) in
               let '(l2, evs, d) := apply_cb t l1 cid h in
-              Some (signal (set_dropped (put l2 s) (e_dropped s || d)) o, (t, KOpen cid) :: evs)
+              Some (signal (cancel_if d (put l2 s)) o, (t, KOpen cid) :: evs)
           | TExec n => Some (put l0 s, [(t, KExec n)])
           end
         end
@@ -650,7 +650,7 @@ Definition new_loop : loop := mkLoop LIdle [] [] false.
 
 Definition einit (cfg : config) (nusers : nat) : estate :=
   mkE cfg false false false false false (repeat new_loop (c_nloops cfg)) new_loop R0 TIdle
-      (repeat UIdle nusers) [] 0 false [].
+      (repeat UIdle nusers) [] 0 [].
 
 Definition is_init (s : estate) : Prop := exists cfg nu, s = einit cfg nu.
 
